@@ -61,8 +61,20 @@ fn codec_job(seed: u64, j: usize, tier: Tier) -> Outcome {
             for (name, off, got, pseudo) in cases {
                 // the property speaks of a datagram with the checksum inserted: the field must exist
                 if len < off + 2 {
-                    if let Err(p) = got {
-                        o.violate("checksum_never_panics", format!("{name}|{}", p.site()), format!("len {len}: panic at {}:{}: {}", p.file, p.line, p.message), replay.clone());
+                    match got {
+                        Err(p) => o.violate("checksum_never_panics", format!("{name}|{}", p.site()), format!("len {len}: panic at {}:{}: {}", p.file, p.line, p.message), replay.clone()),
+                        // the buffer ends inside the checksum field: "the checksum field taken as
+                        // zero" still has a meaning for the half that is present
+                        Ok(g) if len == off + 1 => {
+                            let mut zeroed = data.clone();
+                            zeroed[off] = 0;
+                            let want = wire::csum(&[&pseudo, &zeroed]);
+                            o.hit("partial_checksum_field_taken_as_zero");
+                            if g != want {
+                                o.violate("partial_checksum_field_taken_as_zero", name, format!("{name} len {len} (buffer ends inside the checksum field) content kind {kind}: {g:#06x} != RFC 1071 with the field zeroed {want:#06x}"), replay.clone());
+                            }
+                        }
+                        Ok(_) => {}
                     }
                     continue;
                 }
@@ -155,7 +167,7 @@ fn paris_job(seed: u64, j: usize, tier: Tier) -> Outcome {
 
 pub fn run(tier: Tier, seed: u64, only: Option<String>) -> i32 {
     let mut rep = Report::new("C13", "exploration", tier, seed);
-    rep.rule = "codec: the six public checksum functions over every data length 0..=1024 x {zeros, 0xff.., carry maximising ff fe.., counting pattern, random} x 8 (thorough 64) IPv4 and IPv6 address pairs incl. all-zero and all-ones, compared with an independent RFC 1071 routine over pseudo header + data with the checksum field zeroed, then re-verified with the checksum inserted (sum 0xffff); lengths that do not contain the checksum field are only required not to panic; Paris: the datagrams dispatched by the real tracer in the 12 UDP/Paris cells over walked sequence ranges (thorough: every issuable sequence) x 3 port pairs are captured at send_to: checksum field = sequence and the datagram verifies; distinct by (address pair | cell, initial sequence, port pair)".into();
+    rep.rule = "codec: the six public checksum functions over every data length 0..=1024 x {zeros, 0xff.., carry maximising ff fe.., counting pattern, random} x 8 (thorough 64) IPv4 and IPv6 address pairs incl. all-zero and all-ones, compared with an independent RFC 1071 routine over pseudo header + data with the checksum field zeroed, then re-verified with the checksum inserted (sum 0xffff); lengths that do not reach the checksum field are only required not to panic, a buffer ending inside the field must be summed with the present half taken as zero; Paris: the datagrams dispatched by the real tracer in the 12 UDP/Paris cells over walked sequence ranges (thorough: every issuable sequence) x 3 port pairs are captured at send_to: checksum field = sequence and the datagram verifies; distinct by (address pair | cell, initial sequence, port pair)".into();
     rep.assumptions = vec!["the checksum field is taken as zero (the functions skip the word at the field's offset)".into()];
     rep.required_clauses = vec!["equals_rfc1071", "inserted_sums_to_ffff", "paris_checksum_is_sequence_and_verifies", "udp_probe_fields"];
     let n1 = tier.pick(8, 64);
